@@ -318,6 +318,7 @@ PROPS = {
         "units": [
             {"pkg": T, "test": "TestVerifC10", "quick": (16, 2500), "thorough": (16, 250000), "timeout_q": 900},
             {"pkg": T, "test": "TestVerifC10_edit", "quick": (8, 5000), "thorough": (16, 150000)},
+            {"pkg": T, "test": "TestVerifC10_refs", "quick": (8, 3000), "thorough": (16, 100000)},
         ],
     },
     "C15": {
@@ -328,7 +329,9 @@ PROPS = {
                   "source peers, five reset procedures (API both/all, out then in, in then out, in + ROUTE-REFRESH from the targets, "
                   "per-peer both) and 0-3 announcements/withdrawals in flight while the reset is issued: after the reset the Loc-RIB "
                   "(prefix, source, attributes, best flag) and what each of two target peers (eBGP, iBGP) holds equal those of a "
-                  "fresh server started with the new policy and fed the final route set; repeating the reset changes nothing."),
+                  "fresh server started with the new policy and fed the final route set; repeating the reset changes nothing. Reference integrity (TestVerifC10_refs): deleting a prefix set, statement or policy that a configured "
+            "object still refers to (assignment in either direction -> policy -> statement -> set) is refused and changes nothing, "
+            "an unreferenced one is deleted, and after every operation every reference still resolves."),
         "note": ("IPv4 unicast only; peers are not route-server clients (per-peer policies apply only to those); policy changes "
                  "are made with SetPolicies + SetPolicyAssignment; ExternalCompareRouterId is set so that the decision between "
                  "equal external paths does not depend on arrival order, which differs between the two runs. "
